@@ -1025,6 +1025,9 @@ func (c *Client) update(sub string, obj client.Object, opts []client.UpdateOptio
 		if cur == nil {
 			return nil, kerrors.NewNotFound(w.gr(req.key), k.Name)
 		}
+		if w.RequireRV && str(m, "metadata", "resourceVersion") == "" && strings.Contains(gvk.Group, ".") && !strings.HasSuffix(gvk.Group, ".k8s.io") {
+			return nil, invalid(gvk, k.Name, "metadata.resourceVersion", "Invalid value: 0x0: must be specified for an update")
+		}
 		next, err := w.prepareUpdate(gvk, sub, cur, runtime.DeepCopyJSON(m))
 		if err != nil || next == nil {
 			return next, err
